@@ -143,7 +143,7 @@ def cmd_check(prop, tier, only=None, keep=False, quiet=False):
     if meta is None:
         print("unknown or unclaimed property " + prop)
         return 2
-    groups = [g for g in load_groups() if prop in g.props and (tier == 'thorough' or g.tier == 'quick')]
+    groups = [g for g in load_groups() if prop in g.props and (tier == 'thorough' or (g.tier == 'quick' and prop not in g.thorough_for))]
     if only:
         groups = [g for g in groups if re.search(only, g.gid)]
     if not groups:
